@@ -13,7 +13,7 @@ if [ ! -d $WT ]; then git -C /repo worktree add -q --detach $WT HEAD; fi
 git -C $WT checkout -q --detach $(git -C /repo rev-parse HEAD); git -C $WT checkout -q -- . ; git -C $WT clean -qfd
 git -C $WT apply "$PATCH"
 mkdir -p $MV
-rsync -a --delete --exclude .build --exclude out --exclude .git --exclude replay --exclude evidence ${VERIF_SRC:-/verif}/ $MV/
+rsync -a --delete --exclude .build --exclude out --exclude .git --exclude replay --exclude evidence --exclude ".audit_*" ${VERIF_SRC:-/verif}/ $MV/ || true
 mkdir -p $MV/replay $MV/evidence
 sed -i "s#path = \"/repo#path = \"$WT#g" $MV/harness/Cargo.toml
 sed -i "s#target-dir = \"/verif/.build\"#target-dir = \"/tmp/mutbuild\"#" $MV/harness/.cargo/config.toml
